@@ -137,6 +137,10 @@ impl Command for SystemCommand
 {
     fn apply(self, world: &mut World)
     {
+        #[cfg(feature = "verif")]
+        crate::verif::emit(crate::verif::VerifEvent::CommandApply{
+            kind: crate::verif::VerifCommandKind::SystemCommand, target: *self, source: None, data_entity: None
+        });
         syscommand_runner(world, self, SystemCommandSetup::default(), SystemCommandCleanup::default());
     }
 }
@@ -169,6 +173,11 @@ impl Command for EventCommand
 {
     fn apply(self, world: &mut World)
     {
+        #[cfg(feature = "verif")]
+        crate::verif::emit(crate::verif::VerifEvent::CommandApply{
+            kind: crate::verif::VerifCommandKind::SystemEvent,
+            target: *self.system, source: None, data_entity: Some(self.data_entity)
+        });
         world.resource_mut::<SystemEventAccessTracker>().prepare(self.system, self.data_entity);
         syscommand_runner(
             world,
@@ -240,6 +249,33 @@ impl Command for ReactionCommand
 {
     fn apply(self, world: &mut World)
     {
+        #[cfg(feature = "verif")]
+        {
+            use crate::verif::{VerifCommandKind, VerifEvent, reaction_kind};
+            let event = match &self
+            {
+                Self::Resource{ reactor } => VerifEvent::CommandApply{
+                    kind: VerifCommandKind::Resource, target: **reactor, source: None, data_entity: None
+                },
+                Self::EntityReaction{ reaction_source, reaction_type, reactor } => VerifEvent::CommandApply{
+                    kind: reaction_kind(*reaction_type), target: **reactor, source: Some(*reaction_source),
+                    data_entity: None
+                },
+                Self::Despawn{ reaction_source, reactor, .. } => VerifEvent::CommandApply{
+                    kind: VerifCommandKind::Despawn, target: **reactor, source: Some(*reaction_source),
+                    data_entity: None
+                },
+                Self::EntityEvent{ target, data_entity, reactor } => VerifEvent::CommandApply{
+                    kind: VerifCommandKind::EntityEvent, target: **reactor, source: Some(*target),
+                    data_entity: Some(*data_entity)
+                },
+                Self::BroadcastEvent{ data_entity, reactor } => VerifEvent::CommandApply{
+                    kind: VerifCommandKind::Broadcast, target: **reactor, source: None,
+                    data_entity: Some(*data_entity)
+                },
+            };
+            crate::verif::emit(event);
+        }
         match self
         {
             Self::Resource{ reactor } =>
